@@ -651,6 +651,21 @@ fn get_all_commands<'a>(
     }
 
     all_commands.extend_from_slice(commands);
+    // A command's name is the name of its log directory inside the run slot: it has to be
+    // a single path component, or the logs end up outside the slot (`../2/build` is another
+    // retained run) or where `log show` does not look for them (`ci/lint`).
+    for command in all_commands.iter() {
+        let mut components = path::Path::new(command.as_str()).components();
+        match (components.next(), components.next()) {
+            (Some(path::Component::Normal(c)), None) if c.to_str() == Some(command.as_str()) => (),
+            _ => {
+                return Err(MonorailError::Generic(format!(
+                    "Command name '{}' is not usable as a directory name",
+                    command
+                )))
+            }
+        }
+    }
     Ok(all_commands)
 }
 
